@@ -143,6 +143,71 @@ int main() { run(300); run(65540); return 0; }
     return False
 
 
+# ---------------------------------------------------------------------------
+# setup, resamplekey, adjust_nondelegable: the remaining functions that WRITE a slot array
+NOOP = "{ }"
+
+
+def more_stubs(tu, extra=None):
+    """every group / field / sampling callee of these functions is a no-op here (only the integer side is under contract); `extra` overrides"""
+    st = {}
+    for q, f in tu.by_qname.items():
+        if f.body is None:
+            continue
+        if (q.startswith(("G1::", "G2::", "Projective<", "Affine<", "Fq12::", "pairing(", "wkdibe::random_", "BigInt<256>::subtract", "BigInt<256>::equal", "PowersOfX::")) and "::marshal" not in q):
+            st[q] = NOOP
+    st.update(extra or {})
+    return st
+
+
+def c_setup():
+    pre = [fresh("params"), fresh("msk"), "0 <= l", "__CPROVER_is_fresh(params->h, (size_t)l * sizeof(*params->h))", "jpv_h == params->h", "jpv_cnt == 0", "jpv_t <= (1 << 30)"]
+    post = ["params->l == l", "params->signatures == signatures", "(0 <= jpv_t && jpv_t < l) ==> jpv_cnt == 1"]
+    return req(*pre) + assigns("*params", "*msk", "__CPROVER_object_whole(params->h)", "jpv_cnt") + ens(*post)
+
+
+def loop_setup():
+    return {1: "__CPROVER_assigns(i, jpv_cnt, __CPROVER_object_whole(params->h))\n__CPROVER_loop_invariant(0 <= i && i <= l)\n"
+               "__CPROVER_loop_invariant(jpv_cnt == ((0 <= jpv_t && jpv_t < i) ? 1 : 0))\n__CPROVER_decreases(l - i)\n"}
+
+
+def c_resample():
+    pre = [fresh("resampled"), fresh("params"), fresh("precomputed"), fresh("sk"), "0 <= sk->l", "__CPROVER_is_fresh(sk->b, (size_t)sk->l * sizeof(*sk->b))",
+           "__CPROVER_is_fresh(resampled->b, (size_t)sk->l * sizeof(*resampled->b))", "jpv_t <= (1 << 30)"]
+    post = ["resampled->signatures == sk->signatures",
+            "supportFurtherQualification ==> (resampled->l == sk->l)", "(!supportFurtherQualification) ==> (resampled->l == 0)",
+            "(supportFurtherQualification && 0 <= jpv_t && jpv_t < sk->l) ==> (resampled->b[jpv_t].idx == sk->b[jpv_t].idx)"]
+    return req(*pre) + assigns("*resampled", "__CPROVER_object_whole(resampled->b)") + ens(*post)
+
+
+def loop_resample():
+    return {1: "__CPROVER_assigns(@LOCALS@, i, __CPROVER_object_whole(resampled->b))\n__CPROVER_loop_invariant(0 <= i && i <= sk->l)\n"
+               "__CPROVER_loop_invariant((0 <= jpv_t && jpv_t < i) ==> (resampled->b[jpv_t].idx == sk->b[jpv_t].idx))\n__CPROVER_decreases(sk->l - i)\n"}
+
+
+def c_adjust():
+    pre = [fresh("sk"), fresh("parent"), fresh("from"), fresh("to"), "0 <= parent->l", "__CPROVER_is_fresh(parent->b, (size_t)parent->l * sizeof(*parent->b))",
+           "__CPROVER_is_fresh(sk->b, (size_t)parent->l * sizeof(*sk->b))",
+           "from->length <= ((size_t)1 << 30)", "to->length <= ((size_t)1 << 30)",
+           "__CPROVER_is_fresh(from->attrs, from->length * sizeof(*from->attrs))", "__CPROVER_is_fresh(to->attrs, to->length * sizeof(*to->attrs))", "jpv_t <= (1 << 30)"]
+    post = ["0 <= sk->l && sk->l <= parent->l", "(to->length == 0) ==> (sk->l == parent->l)",
+            "(to->length == 0 && 0 <= jpv_t && jpv_t < parent->l) ==> (sk->b[jpv_t].idx == parent->b[jpv_t].idx)"]
+    return req(*pre) + assigns("*sk", "__CPROVER_object_whole(sk->b)") + ens(*post)
+
+
+def loop_adjust():
+    common = ["0 <= j && (size_t)j <= from->length", "0 <= k && (size_t)k <= to->length"]
+    outer = ["0 <= i && i <= parent->l", "0 <= x && x <= i", "(to->length == 0) ==> (x == i)",
+             "(to->length == 0 && 0 <= jpv_t && jpv_t < i) ==> (sk->b[jpv_t].idx == parent->b[jpv_t].idx)"] + common
+    mk = lambda tg, inv, dec: "__CPROVER_assigns(%s)\n" % tg + "".join("__CPROVER_loop_invariant(%s)\n" % v for v in inv) + "__CPROVER_decreases(%s)\n" % dec
+    return {1: mk("@LOCALS@, i, sk->a0, __CPROVER_object_whole(sk->b)", outer, "parent->l - i"),
+            2: mk("j", common, "from->length - (size_t)j"),
+            3: mk("k", common, "to->length - (size_t)k")}
+
+
+PRELUDE2 = "int jpv_t, jpv_t2; const void *jpv_h; int jpv_cnt;\n"
+
+
 def units():
     us = []
     for q, deleg in (("wkdibe::keygen", True), ("wkdibe::nondelegable_keygen", False)):
@@ -164,5 +229,20 @@ def units():
                    note="loop contract (invariants + decreases) on the slot loop, l and the parent's slot count symbolic up to INT_MAX; the destination array needs room for the parent's sk.l entries only; group operations replaced by their frame contracts")
         u.harness_pre = HAVOC
         u.replay_hook = _replay
+        us.append(u)
+    REC = "{ if (jpv_t >= 0 && __CPROVER_same_object(self, jpv_h) && (size_t)__CPROVER_POINTER_OFFSET(self) == (size_t)jpv_t * sizeof(Projective_Fq)) jpv_cnt++; }"
+    for q, c, lc, can, extra_stub in (("wkdibe::setup", c_setup(), loop_setup(), ("params->l == l", "params->l == l + 1"), {"G1::random_generator": REC}),
+                                      ("wkdibe::resamplekey", c_resample(), loop_resample(), ("(resampled->l == sk->l)", "(resampled->l == sk->l + 1)"), None),
+                                      ("wkdibe::adjust_nondelegable", c_adjust(), loop_adjust(), ("sk->l <= parent->l", "sk->l < parent->l"), None)):
+        u = BVUnit(q, {q: c}, P, unwind=12, loop_contracts={q: lc}, timeout=900, spec_prelude=PRELUDE2,
+                   label=q + ": slot bookkeeping for every slot count (loop contract)", extra=["--object-bits", "11"], canary=can,
+                   note="loop contracts on the slot loop(s), counts symbolic; every group / sampling callee is a no-op stub (only the integer side is under contract here)")
+        u.stub_factory = (lambda tu, e=extra_stub: more_stubs(tu, e))
+        u.harness_pre = HAVOC
+        if q == "wkdibe::resamplekey":
+            # &params.h[sk.b[i].idx] is only formed, never dereferenced here (the group operation is a stub); that every listed index is below
+            # params.l is the key's well-formedness (GROUP units), not expressible for an unbounded array without a quantifier: no pointer-arithmetic check
+            u.checks = False
+            u.extra = list(u.extra) + ["--bounds-check", "--pointer-check", "--signed-overflow-check", "--conversion-check"]
         us.append(u)
     return us
